@@ -213,6 +213,7 @@ func propC05(c *Check) {
 	ruleR05_5(c)
 	ruleR12_6(c)
 	ruleR01_2(c)
+	ruleR29_5(c) // prefix, equality and order tests never mix internal keys with user keys/prefixes
 }
 
 // ---- C33 ----
@@ -342,34 +343,13 @@ func ruleR28_1(c *Check) {
 		r.Check(ok, f, "state changed only if the checks succeeded", s, "a store is reachable although checkSize or isBanned returned an error")
 		break
 	}
-	// validation switch: cases present and each returns an error
+	// validation: the listed rejections are present (classified by condition, whatever the spelling)
 	want := map[string]bool{"update": false, "discarded": false, "empty": false, "prefix": false, "keysize": false, "valuesize": false}
-	f.walk(func(x ast.Node) bool {
-		cc, ok := x.(*ast.CaseClause)
-		if !ok || len(cc.List) != 1 || !w.terminates(cc.Body) {
-			return true
+	for _, m := range modifyRejections(w) {
+		if _, listed := want[m.class]; listed {
+			want[m.class] = true
 		}
-		cond := cc.List[0]
-		switch {
-		case w.mentions(cond, w.Field("badger.Txn.update")):
-			want["update"] = true
-		case w.mentions(cond, w.Field("badger.Txn.discarded")):
-			want["discarded"] = true
-		case w.mentions(cond, w.Obj("badger.badgerPrefix")):
-			want["prefix"] = true
-		case w.mentions(cond, w.Field("badger.Options.ValueLogFileSize")):
-			want["valuesize"] = true
-		case w.mentions(cond, w.Field("badger.Entry.Key")):
-			if be, ok := unparen(cond).(*ast.BinaryExpr); ok {
-				if v, isC := w.constInt(be.Y); isC && v == 0 && be.Op == token.EQL {
-					want["empty"] = true
-				} else if be.Op == token.GTR {
-					want["keysize"] = true
-				}
-			}
-		}
-		return true
-	})
+	}
 	for k, v := range want {
 		r.Check(v, f, "validation case: "+k, nil, "Txn.modify no longer rejects on: "+k)
 	}
@@ -579,18 +559,23 @@ func (w *World) lenOf(pred func(ast.Expr) bool) func(ast.Expr) bool {
 }
 
 // R28.4: the boundaries of the validation and the closed list of rejections.
-func ruleR28_4(c *Check) {
-	w := c.W
-	r := c.Rule("R28.4", "E5+E7", 9, "Txn.modify rejects exactly on: read-only transaction, discarded transaction, len(Key) == 0, HasPrefix(Key, badgerPrefix), len(Key) > 65000, len(Value) > ValueLogFileSize, InMemory && len(Value) > valueThreshold(), the error of isBanned, the error of checkSize — each with that relation and constant; every other error return of modify is a violation",
-		"a weaker boundary accepts a key the table format cannot hold (the key length is a uint16 next to a version suffix); a stronger boundary or an additional rejection refuses a write the property says is accepted")
+// modRej: one error return of Txn.modify, classified by the condition it is taken under
+// (whatever the spelling: switch, if/else chain, separate ifs). class "" = not a listed reason;
+// why != "" = the listed reason with another relation or constant.
+type modRej struct {
+	rs    *ast.ReturnStmt
+	class string
+	why   string
+}
+
+func modifyRejections(w *World) []modRej {
 	f := w.F("badger.Txn.modify")
 	keyF, valF := w.Field("badger.Entry.Key"), w.Field("badger.Entry.Value")
 	isKeyLen, isValLen := w.lenOf(w.isField(keyF)), w.lenOf(w.isField(valF))
 	vlfs := w.Field("badger.Options.ValueLogFileSize")
 	inMem := w.Field("badger.Options.InMemory")
 	thr := w.Func("badger.DB.valueThreshold")
-	seen := map[string]bool{}
-	var k keyer
+	var out []modRej
 	for _, e := range f.allExits() {
 		rs, ok := e.Node.(*ast.ReturnStmt)
 		if !ok || len(rs.Results) != 1 {
@@ -670,12 +655,26 @@ func ruleR28_4(c *Check) {
 				}
 			}
 		}
-		if class == "" {
-			r.Check(false, f, k.key("rejection is one the property lists", w, rs), rs, "Txn.modify returns an error for a reason other than the listed ones: a write the property says is accepted is refused")
+		out = append(out, modRej{rs, class, why})
+	}
+	return out
+}
+
+// R28.4: the boundaries of the validation and the closed list of rejections.
+func ruleR28_4(c *Check) {
+	w := c.W
+	r := c.Rule("R28.4", "E5+E7", 9, "Txn.modify rejects exactly on: read-only transaction, discarded transaction, len(Key) == 0, HasPrefix(Key, badgerPrefix), len(Key) > 65000, len(Value) > ValueLogFileSize, InMemory && len(Value) > valueThreshold(), the error of isBanned, the error of checkSize — each with that relation and constant; every other error return of modify is a violation",
+		"a weaker boundary accepts a key the table format cannot hold (the key length is a uint16 next to a version suffix); a stronger boundary or an additional rejection refuses a write the property says is accepted")
+	f := w.F("badger.Txn.modify")
+	seen := map[string]bool{}
+	var k keyer
+	for _, m := range modifyRejections(w) {
+		if m.class == "" {
+			r.Check(false, f, k.key("rejection is one the property lists", w, m.rs), m.rs, "Txn.modify returns an error for a reason other than the listed ones: a write the property says is accepted is refused")
 			continue
 		}
-		seen[class] = true
-		r.Check(why == "", f, k.key("rejection: "+class, w, rs), rs, why)
+		seen[m.class] = true
+		r.Check(m.why == "", f, k.key("rejection: "+m.class, w, m.rs), m.rs, m.why)
 	}
 	for _, cl := range []string{"update", "discarded", "empty", "prefix", "keysize", "valuesize", "inmemory-valuesize", "banned", "size"} {
 		r.Check(seen[cl], f, "rejection present: "+cl, nil, "Txn.modify no longer rejects on: "+cl)
@@ -768,4 +767,5 @@ func propC28(c *Check) {
 	ruleR28_3(c)
 	ruleR28_4(c)
 	ruleR28_5(c)
+	ruleR29_5(c)
 }
